@@ -1,19 +1,19 @@
 CONSTANTS
-  NP = 3
+  NP = 2
   NL = 3
   NO = 3
   MaxClock = 1000
   AgeCap = 2
   Multi = FALSE
-  LCfg <- Cfg3q
-  TokOf <- Tok3
-  Homes <- Homes3r
+  LCfg <- Cfg2p3l
+  TokOf <- Tok2
+  Homes <- Homes2p3l
   WaitModes = {}
-  LockParts = {}
+  LockParts = {1}
   ReqStates = {"A", "I"}
 INIT Init
 NEXT Next
 VIEW ageview
-INVARIANTS TypeOK RoutingTotal
+INVARIANTS TypeOK
 PROPERTIES LegalEdges LockRespected PromotionTiming DeletionGuard LockOnlyByEditor RefusedIsNoWrite
 CHECK_DEADLOCK FALSE
